@@ -8,22 +8,6 @@ Each witness is replayed on the real code by the harness (corpus/C01/*.json) and
 namespace CV.C01.Neg
 open CV.C01
 
-/-! ## extends: the base file is resolved with an unchecked `value.(string)` on `extends.file`
-
-`a` extends `b` in `o.yml`; some service of `o.yml` has `extends: {service: x, file: 3}`.  After `o.yml` is
-loaded, `paths.ResolveRelativePaths` runs `absExtendsPath` on every `services.*.extends.file` and panics
-(key `panic@paths.(*relativePathsResolver).absExtendsPath`). -/
-
-def extWitnessFS : Ext.FS := [("o.yml", .services [("b", .plain), ("c", .ext (.map (.str "b") .other))])]
-def extWitnessSvcs : Ext.Services := [("a", .ext (.map (.str "b") (.str "o.yml")))]
-
-/-- "the extends recursion never panics" is FALSE -/
-theorem extends_never_panics_false :
-    ¬ (∀ (fs : Ext.FS) (main : String) (fuel : Nat) (svcs : Ext.Services) (name : String) (s : String),
-        (Ext.resolve fs main fuel svcs name []).1 ≠ .panic s) := by
-  intro h
-  exact h extWitnessFS "m" 3 extWitnessSvcs "a" "paths.absExtendsPath:value.(string)" (by decide)
-
 /-! ## alias expansion: a merge key that points at an enclosing anchor is followed forever
 
 `checkForCycle` exempts visits "at the exact same path" and any path that contains a merge key; a `<<: *x`
@@ -31,6 +15,37 @@ inside `&x` is visited at the same (merge-stripped) path every time, so neither 
 
 section ResetWitness
 open CV.C01.Reset
+
+/-- `resolveReset` as it was before the repair (repo commit "resolveReset reports a node nested twice inside its
+own expansion as a cycle"): no stack of active nodes, `checkForCycle` is the only protection -/
+def preResolve : Nat → St → Nat → P → Except Err (St × Option Nat)
+  | 0, _, _, _ => .error .outOfFuel
+  | fuel + 1, st, n, path0 =>
+    let path := normPath path0
+    match st.arena[n]? with
+    | none => .error .badIndex
+    | some (.alias t) =>
+      match checkForCycle st t path with
+      | .error e => .error e
+      | .ok st' => preResolve fuel st' t path
+    | some node =>
+      if node.tag = "!reset" then .ok ({ st with paths := st.paths ++ [path] }, none)
+      else if node.tag = "!override" then .ok ({ st with paths := st.paths ++ [path] }, some n)
+      else match node with
+        | .seq tag items =>
+          match resolveItems (preResolve fuel) path st items 0 with
+          | .error e => .error e
+          | .ok (st', kept) => .ok ({ st' with arena := setNode n (.seq tag kept) st'.arena }, some n)
+        | .map tag entries =>
+          match resolveEntries (preResolve fuel) path st entries with
+          | .error e => .error e
+          | .ok (st', kept) => .ok ({ st' with arena := setNode n (.map tag kept) st'.arena }, some n)
+        | _ => .ok (st, some n)
+
+def preRun (arena : List Node) (root : Nat) (fuel : Nat) : Except Err (List P) :=
+  match preResolve fuel { arena := arena, visited := [], paths := [] } root [] with
+  | .error e => .error e
+  | .ok (st, _) => .ok st.paths
 
 /-- `&x {<<: *x}` as an arena (the document root is the anchored mapping itself) -/
 def resetWitness : List Node := [.map "" [("<<", 1)], .alias 0]
@@ -66,30 +81,30 @@ theorem check_ok (st : St) (h : WInv st) : ∃ st', checkForCycle st 0 ["<<"] = 
     · simpa using h'
 
 theorem resetWitness_loops : ∀ (fuel : Nat) (st : St), WInv st →
-    resolve fuel st 0 ["<<"] = .error .outOfFuel ∧
-    ∀ p, normPath p = ["<<"] → resolve fuel st 1 p = .error .outOfFuel
+    preResolve fuel st 0 ["<<"] = .error .outOfFuel ∧
+    ∀ p, normPath p = ["<<"] → preResolve fuel st 1 p = .error .outOfFuel
   | 0, _, _ => ⟨rfl, fun _ _ => rfl⟩
   | fuel + 1, st, h => by
     obtain ⟨ih0, ih1⟩ := resetWitness_loops fuel st h
     obtain ⟨st', hck, hinv'⟩ := check_ok st h
     obtain ⟨ih0', _⟩ := resetWitness_loops fuel st' hinv'
     refine ⟨?_, ?_⟩
-    · unfold resolve
+    · unfold preResolve
       simp only [normPath, h.1, resetWitness, List.getElem?_cons_zero, Node.tag]
       have e1 : ¬ ("" = "!reset") := by decide
       have e2 : ¬ ("" = "!override") := by decide
       have ih1' := ih1 ["<<", "<<"] (by decide)
       simp only [e1, e2, List.not_mem_nil, ↓reduceIte, resolveEntries, List.cons_append, List.nil_append, ih1']
     · intro p hn
-      unfold resolve
+      unfold preResolve
       simp only [hn, h.1, resetWitness, List.getElem?_cons_succ, List.getElem?_cons_zero, hck]
       exact ih0'
 
 
-/-- full-strength "alias expansion terminates" is FALSE: on `&x {<<: *x}` no amount of fuel suffices
+/-- full-strength "alias expansion terminates" was FALSE before the repair: on `&x {<<: *x}` no amount of fuel suffices
 (real code: the loader never returns; key `hang@cycle/alias-self-merge`, `hang@reset/alias-self-merge`) -/
 theorem alias_resolution_total_false :
-    ¬ (∀ (arena : List Node) (root : Nat), ∃ n, ∀ fuel, n ≤ fuel → Reset.run arena root fuel ≠ .error .outOfFuel) := by
+    ¬ (∀ (arena : List Node) (root : Nat), ∃ n, ∀ fuel, n ≤ fuel → preRun arena root fuel ≠ .error .outOfFuel) := by
   intro h
   obtain ⟨n, hn⟩ := h resetWitness 0
   apply hn (n + 2) (by omega)
@@ -97,8 +112,8 @@ theorem alias_resolution_total_false :
   have h1 := (resetWitness_loops (n + 1) _ hinv).2 ["<<"] (by decide)
   have e1 : ¬ ("" = "!reset") := by decide
   have e2 : ¬ ("" = "!override") := by decide
-  unfold Reset.run
-  unfold resolve
+  unfold preRun
+  unfold preResolve
   simp only [normPath, resetWitness, List.getElem?_cons_zero, Node.tag, e1, e2, ↓reduceIte, resolveEntries,
     List.nil_append]
   simp only [resetWitness] at h1
@@ -123,13 +138,13 @@ def overrideWitness : List Node :=
 /-- "the resolved node graph is a tree along direct child pointers" is FALSE -/
 theorem resolve_output_tree_false :
     ¬ (∀ (arena : List Node) (root fuel : Nat) (st : St) (r : Option Nat),
-        resolve fuel { arena := arena, visited := [], paths := [] } root [] = .ok (st, r) →
+        resolve fuel { arena := arena, visited := [], paths := [] } [] root [] = .ok (st, r) →
         ∀ a b, directChild st.arena a b = true → directChild st.arena b a = false) := by
   intro h
-  have hc : (match resolve 8 { arena := overrideWitness, visited := [], paths := [] } 0 [] with
+  have hc : (match resolve 8 { arena := overrideWitness, visited := [], paths := [] } [] 0 [] with
       | .ok (st, _) => directChild st.arena 1 2 && directChild st.arena 2 1
       | .error _ => false) = true := by rfl
-  cases hres : resolve 8 { arena := overrideWitness, visited := [], paths := [] } 0 [] with
+  cases hres : resolve 8 { arena := overrideWitness, visited := [], paths := [] } [] 0 [] with
   | error e => rw [hres] at hc; cases hc
   | ok p =>
     obtain ⟨st, r⟩ := p
